@@ -78,6 +78,8 @@ SPELLINGS = {
     "powPaths": [["announce", "pow_difficulty"], ["node", "announce_pow_difficulty"]],
 }
 SETTINGS = ["ttl", "min", "max", "cport", "tport", "tok", "pow", "dir", "pers"]
+# include/ephemeralnet/Config.hpp / docs/03-operations/01-configuration.md
+BUILTIN_DEFAULTS = {"ttl": 21600, "min": 30, "max": 21600, "cport": 47777, "tport": 45000, "pow": 6, "dir": "storage", "pers": False}
 PATHS = {s: SPELLINGS[s + "Paths"] for s in SETTINGS}
 
 
@@ -144,8 +146,10 @@ def gen_case(rng, shape: str, e2e: bool = False) -> Case:
     used = set()
     depth = rng.choice([0, 0, 1, 1, 2, 3, 4])
     use_env = rng.random() < 0.6
-    select_by = rng.choice(["default", "flag", "env"]) if use_env else rng.choice(["default", "flag"])
-    names = ["default" if select_by == "default" else "p0"] + [f"p{i}" for i in range(1, depth + 1)]
+    # how the profile is selected: nothing (=> "default"), --profile p0, an explicit --profile default (the flag is given,
+    # its value merely equals the built-in choice), or the environment's `profile:` key
+    select_by = rng.choice(["default", "flag", "flagdefault", "flagdefault", "env"]) if use_env else rng.choice(["default", "flag", "flagdefault"])
+    names = ["default" if select_by in ("default", "flagdefault") else "p0"] + [f"p{i}" for i in range(1, depth + 1)]
     profiles = {n: {} for n in names}
     for i in range(depth):
         profiles[names[i]]["extends"] = names[i + 1]
@@ -153,10 +157,12 @@ def gen_case(rng, shape: str, e2e: bool = False) -> Case:
     env_over = {}
     flags = {}
     chosen = rng.sample(SETTINGS, rng.randint(6, 8))
+    spelling = {}
     layers = ["flag", "env", "envmap"] + [f"prof{i}" for i in range(depth + 1)]
     tag = shape
     for s in chosen:
         spell_fixed = rng.choice(PATHS[s]) if rng.random() < 0.3 else PATHS[s][0]
+        spelling[s] = spell_fixed
         k = rng.choice([1, 1, 2, 2, 3, len(layers)])
         where = rng.sample(layers, min(k, len(layers)))
         if e2e and s == "cport" and not where:
@@ -170,6 +176,8 @@ def gen_case(rng, shape: str, e2e: bool = False) -> Case:
             if lay == "flag":
                 if isinstance(v, (dict,)) or (shape == "invalid" and not _flag_ok(s, v)):
                     continue
+                if shape != "invalid" and s in BUILTIN_DEFAULTS and rng.random() < 0.3 and not (e2e and s in ("dir", "cport")):
+                    v = BUILTIN_DEFAULTS[s]      # an explicit flag whose value equals the built-in default is still a flag
                 flags[s] = v
             elif lay == "env":
                 if env is not None:
@@ -186,6 +194,14 @@ def gen_case(rng, shape: str, e2e: bool = False) -> Case:
         env["overrides"] = env_over
     if env is not None and select_by == "env":
         env["profile"] = names[0]
+    elif env is not None and rng.random() < 0.6:
+        # the environment names another profile: with a --profile flag (whatever its value) the flag's choice must stand;
+        # without one the environment legitimately selects the decoy
+        env["profile"] = "decoy"
+        decoy = {}
+        for s2 in SETTINGS:
+            set_path(decoy, rng.choice(PATHS[s2]) if shape == "alias-mixed" else spelling.get(s2, PATHS[s2][0]), fresh_value(rng, s2, used, e2e))
+        profiles["decoy"] = decoy
     # structural variations
     if shape == "cycle":
         target = rng.choice(names)
@@ -215,7 +231,7 @@ def gen_case(rng, shape: str, e2e: bool = False) -> Case:
         env_name = "ci"
         if shape == "missing-env":
             env_name = "nope"
-    profile_flag = names[0] if select_by == "flag" else "-"
+    profile_flag = names[0] if select_by in ("flag", "flagdefault") else "-"
     if shape == "missing-selected" and select_by == "default":
         profile_flag = "-"
     keys = list(doc["profiles"].keys())
@@ -303,7 +319,9 @@ def spec() -> Spec:
         rule="generated JSON/YAML configuration files: 6-8 of nine representative settings (default/min/max TTL, control and transport "
              "port, token, PoW difficulty, storage directory, persistence) each assigned distinct values in a random subset of layers "
              "(flags, environment direct keys, environment overrides map, selected profile, ancestors), extends chains of depth 0-4, "
-             "profile selected by default / --profile / the environment, unrelated (also cyclic) profiles as noise; error shapes: cycle "
+             "profile selected by default / --profile p0 / an explicit --profile default / the environment, with the environment naming a "
+             "decoy profile while a --profile flag is given; flags whose value equals the built-in default (also 0 and false); unrelated "
+             "(also cyclic) profiles as noise; error shapes: cycle "
              "back to any chain member, missing parent, missing selected profile, non-text extends, non-mapping profile, unknown "
              "environment; invalid values (type, range) in winning and in hidden layers; scalar-shadowed sections; mixed spellings "
              "(known finding); plus an end-to-end sample through the real `eph ... start`. distinct = sha256 of the op; non-trivial = "
